@@ -61,10 +61,17 @@ def plan(tier, seed):
             elif f == "circshift":
                 k = int(rng.integers(1, nd + 1))
                 ax = sorted(rng.choice(nd, size=k, replace=False).tolist())
-                style = pick(rng, ["none", "pos", "neg", "mixed"])
+                style = pick(rng, ["none", "pos", "neg", "mixed", "dup"])
                 if style == "none":
                     c["axes"] = None
                     k = nd
+                elif style == "dup":
+                    # an axis named more than once (a field-of-view shift plus a half shift on
+                    # the same axis), also under its positive and its negative name: every
+                    # (shift, axis) pair is one circular shift, so they add up
+                    ax = [int(a) for a in rng.permutation(ax + [int(pick(rng, ax))])]
+                    c["axes"] = [int(a - nd) if rng.random() < 0.5 else int(a) for a in ax]
+                    k = len(ax)
                 else:
                     ax = [int(a) for a in rng.permutation(ax)]       # any order, not sorted
                     c["axes"] = [int(a - nd) if (style == "neg" or (style == "mixed" and
@@ -99,6 +106,7 @@ def plan(tier, seed):
 _DT = ["default"]
 _NC = [False]
 _MG = [0]          # power-of-two exponent applied to the labels (exact in every float type)
+_PZ = [None]       # (selector, value): some labelled elements replaced by NaN / inf
 
 
 def label(shape, cplx):
@@ -111,6 +119,11 @@ def label(shape, cplx):
         x = x + (1 << 55)        # integers that float64 cannot represent exactly
     if _MG[0] and x.dtype.kind in "fc":
         x = x * x.dtype.type(2.0 ** _MG[0])      # ~1e-10 / ~1e+8: still exactly representable
+    if _PZ[0] is not None and x.dtype.kind in "fc" and x.size:
+        # non-finite samples (masked-out voxels stored as NaN, saturated samples as inf): they
+        # are moved / summed like any other element and touch no other position
+        step, val = _PZ[0]
+        x.reshape(-1)[(step * 7) % x.size::max(step, 1) + 3] = val
     if _NC[0] in (True, "strided") and x.ndim >= 1:
         # same values seen through a strided (non-contiguous) view
         big = np.zeros(tuple(2 * n for n in x.shape), x.dtype)
@@ -244,6 +257,10 @@ def run_one(case):
     _DT[0] = case.get("dt", "default")
     _NC[0] = case.get("noncontig") or False
     _MG[0] = [0, 0, 0, -34, 27][sum(case["rs"]) % 5]
+    _PZ[0] = None
+    if sum(case["rs"]) % 4 == 1 and case.get("dt", "default") in ("default", "float32",
+                                                                    "complex64"):
+        _PZ[0] = (sum(case["rs"]) % 11, [np.nan, np.inf, -np.inf][sum(case["rs"]) % 3])
     at_ = (sum(case["rs"]) // 5) % 6       # container type of the integer-sequence arguments
 
     def V(seq):
@@ -334,8 +351,10 @@ def run_one(case):
                         wit, mech=mech)
     sig = "%s|%s|%s|%s|%s%s" % (f, via, cls, "c" if cplx else "r", case.get("dt", "default"),
                                 "|%s" % case.get("noncontig") if case.get("noncontig") else "")
+    if _PZ[0] is not None:
+        sig += "|nonfinite"
     x0 = label(x.shape, cplx)
-    if not np.array_equal(x, x0):
+    if not np.array_equal(x, x0, equal_nan=True):
         return violated(sig, "%s modified its input" % f, wit, mech="mutated")
     if op is not None and ([int(v) for v in op.oshape] != list(ref.shape)
                            or [int(v) for v in op.ishape] != list(x.shape)):
@@ -348,8 +367,8 @@ def run_one(case):
         return violated(sig, "%s changed the element type from %s to %s" % (f, x.dtype,
                                                                              got.dtype), wit,
                         mech="dtype:" + f)
-    if not np.array_equal(got, ref):
-        bad = np.argwhere(got != ref)
+    if not np.array_equal(got, ref, equal_nan=True):
+        bad = np.argwhere(~((got == ref) | (np.isnan(got) & np.isnan(ref))))
         k = tuple(bad[0])
         return violated(sig, "%d element(s) differ from the documented placement; first at %s: "
                         "got %s, expected %s (labels name the source element)" % (
